@@ -65,6 +65,8 @@ def classify(component, what, case):
         return {"features": "F4", "imported-rev": "F52", "latest": "F50", "batch": "F51", "debris": "F54"}.get(case.get("leftover"))
     if k == "debris":
         return "F54"
+    if k == "compiled-changed" and case.get("was_uncompiled"):
+        return "F57"
     return None
 
 
@@ -205,7 +207,7 @@ def laws(cx, h, line, impl, model):
     """impl / model: reply tokens (model already stripped of its private fields, impl of text hashes only for the comparison)"""
     calls = h.calls()
     si = snaps(impl)
-    agree = [cc.strip_fnv(a) == b for a, b in zip(impl, model)] + [False] * len(impl)
+    agree = [cc.strip_fnv(a) == cc.strip_fnv(b) for a, b in zip(impl, model)] + [False] * len(impl)
     prev = None
     first_failed = None
     for j, (call, s) in enumerate(zip(calls, si)):
@@ -239,7 +241,9 @@ def laws(cx, h, line, impl, model):
                 # compiled schema
                 cd = [m["key"] for m, p in zip(s.mods, prev.mods) if m["fnv"] != p["fnv"]]
                 if cd and not fd:
-                    cx.fail("ctx", "compiled schema differs after a failed call", dict(case, kind="compiled-changed", modules=cd))
+                    # implemented but never compiled by the successful call that implemented it (F57): the failed call's recompilation does it
+                    unc = all(p["impl"] and p["fnv"] == "-" for m, p in zip(s.mods, prev.mods) if m["fnv"] != p["fnv"]) and not pending_at(h, j, si)
+                    cx.fail("ctx", "compiled schema differs after a failed call", dict(case, kind="compiled-changed", modules=cd, was_uncompiled=unc))
                 # latest revision
                 ld = [m["key"] for m, p in zip(s.mods, prev.mods) if (m["latest"] & 1) != (p["latest"] & 1)]
                 if ld:
@@ -298,13 +302,14 @@ def run_batch(cx, hs, tag):
             cx.count((call[0], t), True, "ctx:%s:%s" % (call[0], "ok" if s.rc == 0 else "refused"))
         for k in h.meta.get("kinds", []):
             cx.dist["history:" + k.split(":")[0]] += 1
-        if [cc.strip_fnv(t) for t in impl] != model:
-            j = next((n for n, (x, y) in enumerate(zip([cc.strip_fnv(t) for t in impl], model)) if x != y), min(len(impl), len(model)))
+        cm = [cc.strip_fnv(t) for t in model]
+        if [cc.strip_fnv(t) for t in impl] != cm:
+            j = next((n for n, (x, y) in enumerate(zip([cc.strip_fnv(t) for t in impl], cm)) if x != y), min(len(impl), len(model)))
             cx.disagree("ctx", {"history": h.describe(), "call": j, "request": l[:120] + "..."},
                         impl[j] if j < len(impl) else None, model[j] if j < len(model) else None)
         ff = laws(cx, h, l, impl, model)
         if any(cc.model_broken(t) for t in b[1:]) and not h.meta.get("debris_reported"):
-            cx.fail("ctx", "a successful call left a half-parsed module in the context", {"kind": "debris", "line": l, "model_agrees": [cc.strip_fnv(t) for t in impl] == model,
+            cx.fail("ctx", "a successful call left a half-parsed module in the context", {"kind": "debris", "line": l, "model_agrees": [cc.strip_fnv(t) for t in impl] == [cc.strip_fnv(t) for t in model],
                                                                                           "history": h.describe()})
         if ff is not None:
             later.append((h, l, ff, impl, model))
@@ -329,7 +334,8 @@ def run_batch(cx, hs, tag):
                 continue
             mfin, mfin0 = Snap(model[-1]), Snap(cc.strip_x(b[-1]))
             if (fin.obs(), fin.rc) != (fin0.obs(), fin0.rc):
-                magree = (mfin.obs(fnv=False), mfin.rc) != (mfin0.obs(fnv=False), mfin0.rc) and cc.strip_fnv(impl[-1]) == model[-1] and cc.strip_fnv(a[-1]) == cc.strip_x(b[-1])
+                magree = (mfin.obs(), mfin.rc) != (mfin0.obs(), mfin0.rc) and cc.strip_fnv(impl[-1]) == cc.strip_fnv(model[-1]) and \
+                    cc.strip_fnv(a[-1]) == cc.strip_fnv(cc.strip_x(b[-1]))
                 cx.fail("ctx", "the history ends differently than the same history without the failed call",
                         {"kind": "later-differs", "leftover": leftover_kind(h, k, impl), "model_agrees": magree, "line": l, "failed_call": k,
                          "with": impl[-1], "without": a[-1], "history": h.describe()})
@@ -385,5 +391,5 @@ def replay(cx, payload):
         i = line.split()[0]
         cx.notes.append("impl : " + " ".join(ri.get(i, [])))
         cx.notes.append("model: " + " ".join(rm.get(i, [])))
-        if ri.get(i) and rm.get(i) and [cc.strip_fnv(t) for t in ri[i][1:]] != [cc.strip_x(t) for t in rm[i][1:]]:
+        if ri.get(i) and rm.get(i) and [cc.strip_fnv(t) for t in ri[i][1:]] != [cc.strip_fnv(cc.strip_x(t)) for t in rm[i][1:]]:
             cx.disagree("ctx", line[:160], ri[i], rm[i])
